@@ -183,8 +183,13 @@ func verifHeapRemove(i int) *tssItem { return heap.Remove(&tssQ, i).(*tssItem) }
 //@   noreturn
 //@   noframe
 //@   requires conn != nil && log != nil && mtrcs != nil
+//@   requires slayers.LayerTypeSCIONUDP != slayers.LayerTypeSCMP
 //@   noerror buffer.Clear, payload.SerializeTo, scmpLayer.SerializeTo, scionLayer.SerializeTo, udpLayer.SerializeTo, e2eLayer.SerializeTo, e2eExtn.SerializeTo, spao.ComputeAuthCMAC, scion.DeriveHostHostKey
 //@   callsite ntp.DecodePacket 0 scope len(udpLayer.Payload) <= 48
+// Per received packet at most one packet is written, and a request is handled (and then answered) only if the UDP
+// payload is a well-formed NTP request addressed to the listener's port.
+//@   loop 0 iterensures once: mathint(calls("UDPConn.WriteToUDPAddrPort")) <= mathint(prev(calls("UDPConn.WriteToUDPAddrPort")))+1
+//@   callsite handleRequest 0 requires wellFormedHeader(udpLayer.Payload) && len(udpLayer.Payload) == 48 && int(udpLayer.DstPort) == localHostPort
 // The clauses below are stated at the serialisation calls (the last point at which the project's code still owns
 // the layer values; ordinals are in source order: 0 = SCMP reply, 1 = forwarding, 2 = NTP reply for the SCION layer).
 // Forwarding: only packets received on the end-host port, addressed to another port than the listener's and never
